@@ -1,9 +1,155 @@
 import SoundeventModel.Ops.Common
+import SoundeventModel.Metrics
+import SoundeventModel.Detection
 namespace SE.Ops.C09
-open Lean SE
+open Lean SE SE.Metrics SE.Detection
 
-def handle (op : String) (_a : Json) : Except String Json := do
+/-! JSON glue shared by C08 and C09.
+
+  A tag travels as the encoder's answer for it: a vocabulary index or `null`.
+  A predicted tag is `[index | null, "score"]` (the score is the float32 value, exactly). -/
+
+def getOptNat (j : Json) : Except String (Option Nat) :=
+  match j with
+  | .null => .ok none
+  | _ => do return some (← j.getNat?)
+
+def getTagList (j : Json) : Except String (List (Option Nat)) := do (← getArr j).mapM getOptNat
+
+def getPredTag (j : Json) : Except String (Option Nat × Rat) := do
+  match ← getArr j with
+  | [i, s] => return (← getOptNat i, ← getRat s)
+  | _ => .error "predicted tag: expected [index, score]"
+
+def getPredTags (j : Json) : Except String (List (Option Nat × Rat)) := do (← getArr j).mapM getPredTag
+
+def optFld (j : Json) (k : String) (d : Json) : Json := (fldOpt j k).getD d
+
+def getSEPred (j : Json) : Except String SEPred := do
+  return { id := ← fldNat j "id", hasGeom := ← fldBool j "geom", tags := ← getPredTags (← fld j "tags") }
+
+def getSEAnn (j : Json) : Except String SEAnn := do
+  return { id := ← fldNat j "id", hasGeom := ← fldBool j "geom", tags := ← getTagList (← fld j "tags") }
+
+def getMEntry (j : Json) : Except String MEntry := do
+  match ← getArr j with
+  | [s, t, a] => return { src := ← getOptNat s, tgt := ← getOptNat t, aff := ← getRat a }
+  | _ => .error "matcher entry: expected [src, tgt, affinity]"
+
+def getMatcher (j : Json) : Except String (List MEntry) := do (← getArr j).mapM getMEntry
+
+def getItem (j : Json) : Except String Item := do
+  return { y := ← getOptNat (optFld j "y" .null), row := ← getRatList (← fld j "row") }
+
+def getBoolList (j : Json) : Except String (List Bool) := do (← getArr j).mapM (fun b => do
+  match b with
+  | .bool v => return v
+  | _ => return (← b.getNat?) != 0)
+
+def getMLItem (j : Json) : Except String MLItem := do
+  return { truth := ← getBoolList (← fld j "truth"), row := ← getRatList (← fld j "row") }
+
+def featuresJ (fs : Features) : Json := arrJ (fs.map (fun p => arrJ [Json.str p.1, ratJ p.2]))
+
+def getFeatures (j : Json) : Except String Features := do
+  (← getArr j).mapM (fun p => do
+    match ← getArr p with
+    | [k, v] => return (← k.getStr?, ← getRat v)
+    | _ => .error "feature: expected [label, value]")
+
+def optNatJ : Option Nat → Json := optJ natJ
+
+def matchJ (m : MatchOut) : Json :=
+  Json.mkObj [("src", optNatJ m.src), ("tgt", optNatJ m.tgt), ("affinity", ratJ m.affinity),
+              ("score", optJ ratJ m.score), ("metrics", featuresJ m.metrics)]
+
+def clipJ (c : ClipOut) : Json :=
+  Json.mkObj [("clip", natJ c.clip), ("metrics", featuresJ c.metrics), ("score", optJ ratJ c.score),
+              ("matches", arrJ (c.mts.map matchJ))]
+
+def evalJ (e : EvalOut) : Json :=
+  Json.mkObj [("metrics", featuresJ e.metrics), ("score", ratJ e.score), ("clips", arrJ (e.clips.map clipJ))]
+
+def entryJ (e : Entry) : Json :=
+  Json.mkObj [("src", optNatJ e.src), ("tgt", optNatJ e.tgt), ("affinity", ratJ e.aff),
+              ("score", ratJ e.score), ("y", optNatJ e.item.y), ("row", ratsJ e.item.row)]
+
+def getCCPreds (j : Json) : Except String (List (Nat × CCPred)) := do
+  (← getArr j).mapM (fun c => do return (← fldNat c "clip", ⟨← getPredTags (optFld c "tags" (arrJ []))⟩))
+
+def getCCAnns (j : Json) : Except String (List (Nat × CCAnn)) := do
+  (← getArr j).mapM (fun c => do return (← fldNat c "clip", ⟨← getTagList (optFld c "tags" (arrJ []))⟩))
+
+def getSEPreds (j : Json) : Except String (List (Nat × List SEPred)) := do
+  (← getArr j).mapM (fun c => do
+    return (← fldNat c "clip", ← (← getArr (optFld c "events" (arrJ []))).mapM getSEPred))
+
+def getSEAnns (j : Json) : Except String (List (Nat × List SEAnn)) := do
+  (← getArr j).mapM (fun c => do
+    return (← fldNat c "clip", ← (← getArr (optFld c "events" (arrJ []))).mapM getSEAnn))
+
+def getDetPreds (j : Json) : Except String (List (Nat × PredClip)) := do
+  (← getArr j).mapM (fun c => do
+    return (← fldNat c "clip",
+      { events := ← (← getArr (optFld c "events" (arrJ []))).mapM getSEPred,
+        matcher := ← getMatcher (optFld c "matcher" (arrJ [])) }))
+
+/-- run one of the four task drivers on a request -/
+def runTask (a : Json) : Except String (Except Err EvalOut) := do
+  let C ← fldNat a "C"
+  let ps ← fld a "predictions"
+  let as ← fld a "annotations"
+  match ← fldStr a "task" with
+  | "clip_classification" => return clipClassification C (← getCCPreds ps) (← getCCAnns as)
+  | "clip_multilabel_classification" =>
+    return clipMultilabel C (← getCCPreds ps) (← getCCAnns as) (← getRatList (optFld a "clip_scores" (arrJ [])))
+  | "sound_event_classification" => return soundEventClassification C (← getSEPreds ps) (← getSEAnns as)
+  | "sound_event_detection" => return soundEventDetection C (← getDetPreds ps) (← getSEAnns as)
+  | t => .error s!"unknown task {t}"
+
+def taskOfName : String → Option Task
+  | "clip_classification" => some .clipClassification
+  | "clip_multilabel_classification" => some .clipMultilabel
+  | "sound_event_classification" => some .soundEventClassification
+  | "sound_event_detection" => some .soundEventDetection
+  | _ => none
+
+def handle (op : String) (a : Json) : Except String Json := do
   match op with
+  | "task" => return exceptJ evalJ (← runTask a)
+  | "metric" =>
+    -- one function of evaluation/metrics.py on encoded arrays
+    let fn ← fldStr a "fn"
+    let C ← fldNat a "C"
+    match fn with
+    | "accuracy" | "balanced_accuracy" | "top_3_accuracy" | "mean_average_precision" =>
+      let items ← (← fldArr a "items").mapM getItem
+      let r : Option Rat := match fn with
+        | "accuracy" => some (accuracy C items)
+        | "balanced_accuracy" => some (balancedAccuracy C items)
+        | "top_3_accuracy" => some (topK 3 C items)
+        | _ => meanAveragePrecision C items
+      return optRaiseJ ratJ r
+    | "true_class_probability" | "classification_score" =>
+      return valJ (ratJ (tcp (← getItem (← fld a "item"))))
+    | "mean_average_precision_2d" =>
+      let rows ← (← fldArr a "items").mapM getMLItem
+      return valJ (ratJ (meanAveragePrecisionML C rows))
+    | "average_precision" => return valJ (ratJ (exampleAP (← getMLItem (← fld a "item"))))
+    | "jaccard" => return valJ (ratJ (jaccard (← getMLItem (← fld a "item"))))
+    | _ => .error s!"C09: unknown metric function {fn}"
+  | "aoef_metrics" =>
+    -- the label-keyed mapping an AOEF document stores, read back as a feature list
+    return featuresJ (fromDict (toDict (← getFeatures (← fld a "features"))))
+  | "labels" =>
+    -- the labels the model's driver attaches at a level of a task
+    let some t := taskOfName (← fldStr a "task") | .error "unknown task"
+    let lvl ← match ← fldStr a "level" with
+      | "run" => pure Level.run
+      | "example" => pure Level.example
+      | "sound_event" => pure Level.soundEvent
+      | l => .error s!"unknown level {l}"
+    return arrJ ((taskMetrics t lvl).map (fun m => Json.str m.label))
   | _ => .error s!"C09: unknown op {op}"
 
 end SE.Ops.C09
